@@ -451,6 +451,27 @@ def mutation_rules(chk, hs):
     for h, line_ in lost[:1]:
         chk.bad("C05.R18", f"{h.mi.rel}:{line_}", h.name, "view of a per-axis tensor is a view of a temporary", f"NOT: {len(lost)} handler(s) of aliasing ops ({sorted({o for h_, _ in lost for o in h_.ops & ALIASING if True} if False else {o for h_, _ in lost for o in set(h_.ops) & ALIASING})[:6]}) return the op applied to `{positional_params(h.fn)[1]}.dequantize()` for per-axis operands: the result does not alias the operand",
                 "q[0:2].copy_(x), q[0] = row, q.select(-1, 1).copy_(col), q.transpose(0, 1).copy_(y) or q.view(-1).copy_(z) on a per-axis QBytesTensor: q.dequantize() is bit-identical before and after, no error (the same program on a per-tensor tensor writes the codes)")
+    # ---- (f') aliasing aten ops that reach the dispatch and have no handler at all: the generic fallback applies them to a dequantized temporary,
+    #      so the "view" they return never reaches the operand - whatever its quantization axis (one obligation per op of the table below:
+    #      the view ops of native_functions.yaml that are not decomposed before the dispatch of a tensor subclass)
+    VIEW_TABLE = ("aten.alias", "aten.as_strided", "aten.detach", "aten.diagonal", "aten.expand", "aten.permute", "aten.select", "aten.slice", "aten.split",
+                  "aten.split_with_sizes", "aten.squeeze", "aten.t", "aten.transpose", "aten.unbind", "aten.unfold", "aten.unsqueeze", "aten.view", "aten._unsafe_view")
+    handled = {o for h in qb for o in h.ops}
+    disp_b = repo.cls("QBytesTensor").own("__torch_dispatch__")
+    for o in VIEW_TABLE:
+        n += 1
+        chk.require("C05.R18", f"{repo.cls('QBytesTensor').mod.rel}:{disp_b.lineno}", o in handled, f"QBytesTensor: the aliasing op {o} has a handler (without one its result is a view of a dequantized temporary)", o, "aliasing op without a handler",
+                    f"a write through the result of {o} on a per-tensor QBytesTensor (q.diagonal().zero_(), `for row in q: row.relu_()`, q.split([1, 3])[0].copy_(x), q.unfold(0, 2, 2)[0].zero_()): q is unchanged, no error")
+    # ---- (h) the write-back fallback refuses what it cannot write: a raise there is a refusal of a valid float program
+    for p_ in paths_of(disp_b):
+        if p_.end and p_.end[0] == "return" and isinstance(p_.end[1], ast.Call):
+            sw = schema_writeback(repo, U(p_.end[1].func))
+            if sw is not None:
+                for rs in [x for x in ast.walk(sw["fn"]) if isinstance(x, ast.Raise)]:
+                    n += 1
+                    chk.bad("C05.R18", f"{sw['mi'].rel}:{rs.lineno}", U(p_.end[1].func), "write-back fallback refuses an operation", f"NOT: {U(p_.end[1].func)} raises `{U(rs.exc)[:90] if rs.exc is not None else 're-raise'}`: a valid float program is refused (the property lists two documented refusals, this is neither)",
+                            "q.unsqueeze_(0), q.squeeze_(), q.t_(), q.transpose_(0, 1), q.resize_(6, 4) (F.dropout1d(q, training=False, inplace=True) on an unbatched activation does unsqueeze_ ... squeeze_): RuntimeError, the wrapper cannot change its shape in place")
+                break
     # positional overloads: aten.to reaches the dispatch undecomposed in inference mode, as to.dtype(self, dtype, non_blocking, copy, memory_format),
     # to.device(self, device, dtype, ...) or to.other(self, other, ...): a handler registered for it takes the extra positional arguments
     for table in ("qbytes", "qbits"):
